@@ -495,6 +495,140 @@ func (c *c16) buildEval1(n *ev, path string) lazy.Eval[int] {
 // hands out a fresh ticket per call makes that visible: every evaluation must combine ITS OWN ticket with the (shared,
 // memoised) right operand; two overlapping evaluations of the same Eval value must not see each other's intermediate
 // values.
+// orderProgram: thunks and functions with visible effects. "The same value as direct strict evaluation" includes the
+// order in which the deferred computations of ONE evaluation run when they have effects: strict evaluation runs the
+// left operand of Map2 before the right one, a sub-program before the function mapped over it, a continuation after
+// the program it continues. A random unshared tree whose every thunk / function appends its label to a log is evaluated
+// once by one task; the log must equal the log of the strict left-to-right interpreter.
+type c16ord struct {
+	kind int // 0 Done 1 Call 2 TailCall 3 Map 4 FlatMap 5 Map2 6 lazy.Map 7 lazy.FlatMap 8 Func1
+	id   int
+	kids []*c16ord
+}
+
+func (c *c16) orderProgram() {
+	r := c.r
+	r.Case = "eval-order"
+	next := 0
+	var gen func(depth int) *c16ord
+	gen = func(depth int) *c16ord {
+		next++
+		n := &c16ord{id: next}
+		k := r.Choose(9, "ordKind")
+		if depth >= 4 && k >= 2 {
+			k = r.Choose(2, "ordLeaf")
+		}
+		n.kind = k
+		switch k {
+		case 2, 3, 6:
+			n.kids = []*c16ord{gen(depth + 1)}
+		case 4, 5, 7:
+			n.kids = []*c16ord{gen(depth + 1), gen(depth + 1)}
+		}
+		return n
+	}
+	root := gen(0)
+	var log []int
+	note := func(id int) { r.Gate("effect"); log = append(log, id) }
+	var build func(n *c16ord) lazy.Eval[int]
+	build = func(n *c16ord) lazy.Eval[int] {
+		switch n.kind {
+		case 0:
+			return lazy.Done(n.id)
+		case 1:
+			return lazy.Call(func() int { note(n.id); return n.id })
+		case 8:
+			return lazy.Func1(func(a int) int { note(n.id); return a })(n.id)
+		case 2:
+			return lazy.TailCall(func() lazy.Eval[int] { note(n.id); return build(n.kids[0]) })
+		case 3:
+			return build(n.kids[0]).Map(func(v int) int { note(n.id); return (v*3 + n.id) % evMod })
+		case 6:
+			return lazy.Map(build(n.kids[0]), func(v int) int { note(n.id); return (v*3 + n.id) % evMod })
+		case 4:
+			return build(n.kids[0]).FlatMap(func(v int) lazy.Eval[int] {
+				note(n.id)
+				return build(n.kids[1]).Map(func(w int) int { return (v*5 + w) % evMod })
+			})
+		case 7:
+			return lazy.FlatMap(build(n.kids[0]), func(v int) lazy.Eval[int] {
+				note(n.id)
+				return lazy.Map(build(n.kids[1]), func(w int) int { return (v*5 + w) % evMod })
+			})
+		default:
+			return lazy.Map2(build(n.kids[0]), build(n.kids[1]), func(a, b int) int { note(n.id); return (a*7 + b) % evMod })
+		}
+	}
+	var want []int
+	var strict func(n *c16ord) int
+	strict = func(n *c16ord) int {
+		switch n.kind {
+		case 0:
+			return n.id
+		case 1, 8:
+			want = append(want, n.id)
+			return n.id
+		case 2:
+			want = append(want, n.id)
+			return strict(n.kids[0])
+		case 3, 6:
+			v := strict(n.kids[0])
+			want = append(want, n.id)
+			return (v*3 + n.id) % evMod
+		case 4, 7:
+			v := strict(n.kids[0])
+			want = append(want, n.id)
+			w := strict(n.kids[1])
+			return (v*5 + w) % evMod
+		default:
+			a := strict(n.kids[0])
+			b := strict(n.kids[1])
+			want = append(want, n.id)
+			return (a*7 + b) % evMod
+		}
+	}
+	wantV := strict(root)
+	var sb strings.Builder
+	var wr func(n *c16ord)
+	names := [...]string{"Done", "Call", "TailCall", "Map", "FlatMap", "Map2", "lazy.Map", "lazy.FlatMap", "Func1"}
+	wr = func(n *c16ord) {
+		fmt.Fprintf(&sb, "%s#%d", names[n.kind], n.id)
+		if len(n.kids) > 0 {
+			sb.WriteString("(")
+			for i, k := range n.kids {
+				if i > 0 {
+					sb.WriteString(",")
+				}
+				wr(k)
+			}
+			sb.WriteString(")")
+		}
+	}
+	wr(root)
+	r.MixFingerprintS(sb.String())
+	r.Logf("eval-order: %s", sb.String())
+	if len(want) >= 2 {
+		r.NonTrivial()
+	}
+	prog := build(root)
+	var got int
+	r.Go("evaluator", func(t *sim.Task) {
+		t.Yield("get")
+		got = prog.Get()
+		r.Gate("ret")
+	})
+	if !c.quiesce() {
+		return
+	}
+	if got != wantV {
+		r.Violate("wrong-value", "Eval %s evaluated to %d, strict evaluation gives %d", sb.String(), got, wantV)
+		return
+	}
+	if fmt.Sprint(log) != fmt.Sprint(want) {
+		r.Violate("wrong-order", "Eval %s ran its thunks and functions in the order %v, strict left-to-right evaluation runs them in the order %v", sb.String(), log, want)
+	}
+}
+
 func (c *c16) ticketProgram() {
 	r := c.r
 	r.Case = "eval-tickets"
@@ -546,6 +680,10 @@ func (c *c16) evalTree() {
 	r := c.r
 	if r.Bool(1, 10, "ticketProgram") {
 		c.ticketProgram()
+		return
+	}
+	if r.Bool(1, 8, "orderProgram") {
+		c.orderProgram()
 		return
 	}
 	budget := r.Range(1, 40, "evsize")
